@@ -16,7 +16,9 @@ from vlib.sym import assume, in_alphabet, pinned
 
 CID = "0123456789abcdef"
 STAGES = ["absent", "queued", "pulled", "pulled-with-info", "finished-with-result", "finished-without-result",
-          "finished-error", "killed", "timed-out", "dropped"]
+          "finished-error", "killed", "timed-out", "dropped",
+          # the queue ended the pulled job first; its worker, unaware, reports success afterwards (the first outcome is final)
+          "killed-late-finish", "timed-out-late-finish"]
 WRITERS = ["rl", "odf", "xhtml", "xl", "zim"]
 OTHER_STAGES = ("absent", "queued", "finished-with-result", "finished-error")  # stages of the other writer's render job
 
@@ -51,7 +53,7 @@ def stage_job(sim, worker, jobid, channel, stage, info_val, result, error, clock
     if st == "absent":
         return exp
     h = sim.client
-    tmo = 5 if st == "timed-out" else 1000
+    tmo = 5 if st in ("timed-out", "timed-out-late-finish") else 1000
     h.rpc_qadd(channel=channel, payload={"params": {}}, jobid=jobid, timeout=tmo)
     exp["exists"] = True
     if st == "queued":
@@ -70,6 +72,16 @@ def stage_job(sim, worker, jobid, channel, stage, info_val, result, error, clock
     if got["jobid"] != jobid:
         raise RuntimeError("staging error: pulled %r instead of %r" % (got["jobid"], jobid))
     if st == "pulled":
+        return exp
+    if st in ("killed-late-finish", "timed-out-late-finish"):
+        if st == "killed-late-finish":
+            h.rpc_qkill([jobid])
+            exp.update(done=True, error="killed")
+        else:
+            sim.now = sim.now + 10
+            sim.wq.handletimeouts()
+            exp.update(done=True, error="timeout")
+        w.rpc_qfinish(jobid, result=result)
         return exp
     if st == "pulled-with-info":
         w.rpc_qsetinfo(jobid, {"status": info_val})
@@ -120,7 +132,8 @@ def h_status(mz: int, rj: int, oj: int, widx: int, oidx: int, size: int, errc: i
         def rank(s):
             if STAGES[s] == "dropped":
                 return 0
-            if STAGES[s] in ("pulled", "pulled-with-info", "finished-with-result", "finished-without-result", "finished-error"):
+            if STAGES[s] in ("pulled", "pulled-with-info", "finished-with-result", "finished-without-result", "finished-error",
+                             "killed-late-finish", "timed-out-late-finish"):
                 return 1
             return 2
 
